@@ -293,7 +293,7 @@ var states = []string{"idle", "mid", "zero-c2s", "zero-s2c", "full", "zero+full"
 func (P) Gen(r *core.Rand, tier string, emit func([]string)) {
 	rounds := 2
 	if tier == "thorough" {
-		rounds = 8
+		rounds = 24
 	}
 	for i := 0; i < rounds; i++ {
 		for _, st := range states {
